@@ -368,9 +368,10 @@ def segSpec (N : Nat) : List Face :=
   (List.range (N - 1)).map (fun q => (q + N, q + N + N + N, q + 1 + N)) ++
   (List.range (N - 1)).map (fun q => (q + N + N + 1 + N, q + 1 + N, q + N + N + N))
 
-/-- the four triangles of the two end caps (at `phi1`: rows with `q = 0`; at `phi2`: `q = N - 1`) -/
+/-- the four triangles of the two end caps (at `phi1`: rows with `q = 0`; at `phi2`: `q = N - 1`); the cap at `phi1` is wound
+the other way round (repo fix 64dd71f) -/
 def segCaps (N : Nat) : List Face :=
-  [(0, 3 * N, 2 * N)] ++ [(N, 3 * N, 0)] ++ [(0 + N - 1, 3 * N + N - 1, 2 * N + N - 1)] ++ [(N + N - 1, 3 * N + N - 1, 0 + N - 1)]
+  [(0, 2 * N, 3 * N)] ++ [(N, 0, 3 * N)] ++ [(0 + N - 1, 3 * N + N - 1, 2 * N + N - 1)] ++ [(N + N - 1, 3 * N + N - 1, 0 + N - 1)]
 
 theorem segTriangles_eq (N : Nat) (full : Bool) :
     segTriangles N full = if full then segSpec N else segSpec N ++ segCaps N := by
@@ -465,6 +466,7 @@ theorem edgesOf_seg_count {N : Nat} (hN : 1 ≤ N) (e : Edge) :
   have k3 : sortPair (0 + N - 1) (3 * N + N - 1) = segEdge N 13 0 := by seg_norm
   have k4 : sortPair (N + N - 1) (3 * N + N - 1) = segEdge N 3 (N - 1) := by seg_norm
   have k5 : sortPair (3 * N) (2 * N) = segEdge N 1 0 := by seg_norm
+  have k5' : sortPair (2 * N) (3 * N) = segEdge N 1 0 := by seg_norm
   have k6 : sortPair (3 * N) 0 = segEdge N 12 0 := by seg_norm
   have k7 : sortPair (3 * N + N - 1) (2 * N + N - 1) = segEdge N 1 (N - 1) := by seg_norm
   have k8 : sortPair (3 * N + N - 1) (0 + N - 1) = segEdge N 13 0 := by seg_norm
@@ -483,7 +485,7 @@ theorem edgesOf_seg_count {N : Nat} (hN : 1 ≤ N) (e : Edge) :
   simp only [edgesOf, segSpec, segCaps, segEdges, segFam, List.map_append, List.count_append, List.map_map,
     Function.comp_def, List.map_cons, List.map_nil]
   simp only [a1, a2, a3, a4, a5, a6, a7, a8, b1, b2, b3, b4, b5, b6, b7, b8, c2, c3, c5, c6, c7, c8,
-    k1, k2, k3, k4, k5, k6, k7, k8, k9, k10, k11, k12]
+    k1, k2, k3, k4, k5, k5', k6, k7, k8, k9, k10, k11, k12]
   omega
 
 /-- block (0 = inner top, 1 = outer top, 2 = inner bottom, 3 = outer bottom) and position in the arc of a vertex row -/
